@@ -1,6 +1,7 @@
 import Pyrtma.Spec.Serial
 import Pyrtma.Props.C09
 import Pyrtma.Proofs.Serial
+import Pyrtma.Proofs.Json
 /-!
 # C10 — serialisation round trips are the identity
 
@@ -37,7 +38,7 @@ classes can build (`leafOk`: `String(n)`/`ByteArray(n)` with n > 1, `IntArray` o
 which the message compiler refuses, would indeed not round-trip: see the last example).
 -/
 namespace Pyrtma.C10
-open Pyrtma.Validators Pyrtma.Serial
+open Pyrtma.Validators Pyrtma.Serial Pyrtma.Json
 
 /-- **Version check**: header+data JSON is refused iff the header's version is non-zero and differs from the local hash -/
 theorem json_version_refused (v h : Nat) : versionRefused v h = true ↔ (v ≠ 0 ∧ v ≠ h) := by
@@ -540,6 +541,133 @@ end
 theorem dict_roundtrip_of_check (d : Desc) (b : Bytes) (h : wfB d b = true) : fromDict d (toDict d b) = (b, none) :=
   dict_roundtrip d b (wfB_sound d b h)
 
+/-! ### the JSON text layer -/
+
+/-- **`json.loads(json.dumps(v)) == v`, minified form** (`to_json(minify=True)`): every document of the modelled subset
+— integers, strings of Unicode scalar values (every escape the encoder emits), opaque float tokens, arrays, objects —
+is read back as itself -/
+theorem json_text_roundtrip_min (v : J) (hv : v.okB = true) : parse (renderMin v) = some v :=
+  parse_render none 0 v hv
+
+/-- the same for the indented form (`to_json()`, `indent=2`) — and for any other indentation width -/
+theorem json_text_roundtrip_pretty (v : J) (hv : v.okB = true) : parse (renderPretty v) = some v :=
+  parse_render (some 2) 0 v hv
+
+theorem json_text_roundtrip_indent (k : Nat) (v : J) (hv : v.okB = true) : parse (render (some k) 0 v) = some v :=
+  parse_render (some k) 0 v hv
+
+theorem ascii_valid (c : Nat) (h : c < 128) : validCp c = true := by
+  simp [validCp]; omega
+
+theorem keyOf_valid (k : String) : (keyOf k).all validCp = true := by
+  simp only [keyOf, List.all_eq_true, List.mem_map]
+  rintro c ⟨ch, _, rfl⟩
+  have := ch.valid
+  simp only [validCp, Bool.or_eq_true, Bool.and_eq_true, decide_eq_true_eq]
+  simp only [UInt32.isValidChar, Nat.isValidChar] at this
+  exact this
+
+theorem ofList_ints_ok : ∀ (bs : List Nat), (JL.ofList (bs.map fun (b : Nat) => J.int (b : Int))).okB = true
+  | [] => rfl
+  | b :: bs => by simp [JL.ofList, JL.okB, J.okB, ofList_ints_ok bs]
+
+theorem seqJ_ok (ftok : Nat → List Char) (hf : ∀ x, floatTokOk (ftok x) = true) :
+    ∀ (xs : List Scalar), (∀ x ∈ xs, (∃ n, x = .int n) ∨ (∃ w, x = .flt w)) → ∃ js, seqJ ftok xs = some js ∧ js.okB = true
+  | [], _ => ⟨.nil, rfl, rfl⟩
+  | x :: xs, h => by
+    obtain ⟨js, he, hok⟩ := seqJ_ok ftok hf xs (fun y hy => h y (by simp [hy]))
+    rcases h x (by simp) with ⟨n, rfl⟩ | ⟨w, rfl⟩
+    · exact ⟨.cons (.int n) js, by simp [seqJ, scalarJ, he], by simp [JL.okB, J.okB, hok]⟩
+    · exact ⟨.cons (.flt (ftok w)) js, by simp [seqJ, scalarJ, he], by simp [JL.okB, J.okB, hok, hf]⟩
+
+/-- every leaf value `to_dict` produces from well-formed bytes is encoded to a document of the subset -/
+theorem leaf_toJ_ok (ftok : Nat → List Char) (hf : ∀ x, floatTokOk (ftok x) = true) (ty : FTy) (hok : leafOk ty = true)
+    (b : Bytes) (hw : WF ty b) : ∃ j, pyValJ ftok (toDictLeaf ty b) = some j ∧ j.okB = true := by
+  match ty, hok, hw with
+  | .int k, _, _ => exact ⟨_, rfl, rfl⟩
+  | .flt .f64, _, _ => exact ⟨_, rfl, hf _⟩
+  | .flt .f32, _, _ => exact ⟨_, rfl, hf _⟩
+  | .byte, _, _ => exact ⟨_, rfl, rfl⟩
+  | .char, _, hw =>
+    refine ⟨.str b, rfl, ?_⟩
+    simp only [J.okB, List.all_eq_true]
+    exact fun c hc => ascii_valid c (hw.2.2 c hc)
+  | .str n, _, hw =>
+    refine ⟨.str (upToNul b), rfl, ?_⟩
+    obtain ⟨_, _, cs, hcs, _, rfl⟩ := hw
+    simp only [J.okB, List.all_eq_true]
+    intro c hc
+    have := upToNul_subset _ c hc
+    simp only [List.mem_append, List.mem_replicate] at this
+    rcases this with h | ⟨_, rfl⟩
+    · exact ascii_valid c (hcs c h).2
+    · rfl
+  | .arr .byteArray .byte n, _, _ => exact ⟨_, rfl, ofList_ints_ok b⟩
+  | .arr .intArray (.int k) n, _, _ =>
+    obtain ⟨js, he, hok⟩ := seqJ_ok ftok hf (decodeItems (.int k) n b) (by
+      intro x hx; simp only [decodeItems, List.mem_map] at hx
+      obtain ⟨c, _, rfl⟩ := hx; exact Or.inl ⟨_, rfl⟩)
+    exact ⟨.arr js, by simp [toDictLeaf, pyValJ, he], hok⟩
+  | .arr .floatArray (.flt k) n, _, _ =>
+    obtain ⟨js, he, hok⟩ := seqJ_ok ftok hf (decodeItems (.flt k) n b) (by
+      intro x hx; rw [decodeItems_flt] at hx; simp only [List.mem_map] at hx
+      obtain ⟨c, _, rfl⟩ := hx; exact Or.inr ⟨_, rfl⟩)
+    exact ⟨.arr js, by simp [toDictLeaf, pyValJ, he], hok⟩
+
+theorem toJL_ofList (ftok : Nat → List Char) : ∀ (vs : List Val),
+    (∀ v ∈ vs, ∃ j, toJ ftok v = some j ∧ j.okB = true) → ∃ js, toJL ftok (Vals.ofList vs) = some js ∧ js.okB = true
+  | [], _ => ⟨.nil, rfl, rfl⟩
+  | v :: vs, h => by
+    obtain ⟨j, he, hok⟩ := h v (by simp)
+    obtain ⟨js, hes, hoks⟩ := toJL_ofList ftok vs (fun w hw => h w (by simp [hw]))
+    exact ⟨.cons j js, by simp [Vals.ofList, toJL, he, hes], by simp [JL.okB, hok, hoks]⟩
+
+mutual
+/-- every `to_dict()` of a well-formed message is encoded to a document of the subset (given that the float formatter
+yields float tokens — `float.__repr__`, opaque) -/
+theorem toJ_ok (ftok : Nat → List Char) (hf : ∀ x, floatTokOk (ftok x) = true) :
+    ∀ (d : Desc) (b : Bytes), WFD d b → ∃ j, toJ ftok (toDict d b) = some j ∧ j.okB = true
+  | .leaf ty, b, h => by
+    simp only [WFD] at h
+    simpa only [toDict, toJ] using leaf_toJ_ok ftok hf ty h.1 b h.2
+  | .strct fs tail, b, h => by
+    simp only [WFD] at h
+    obtain ⟨fb, rfl, hfb⟩ := h
+    obtain ⟨js, he, hok⟩ := toJO_ok ftok hf fs fb (zeros tail) hfb
+    exact ⟨.obj js, by simp [toDict, toJ, he], hok⟩
+  | .sarr n e, b, h => by
+    simp only [WFD] at h
+    obtain ⟨js, he, hok⟩ := toJL_ofList ftok ((chunks e.size n b).map fun c => toDict e c) (by
+      intro v hv; simp only [List.mem_map] at hv
+      obtain ⟨c, hc, rfl⟩ := hv
+      exact toJ_ok ftok hf e c (h.2 c hc))
+    exact ⟨.arr js, by simp [toDict, toJ, he], hok⟩
+theorem toJO_ok (ftok : Nat → List Char) (hf : ∀ x, floatTokOk (ftok x) = true) :
+    ∀ (fs : Fields) (b rest : Bytes), WFF fs b → ∃ js, toJO ftok (toDictFields fs (b ++ rest)) = some js ∧ js.okB = true
+  | .nil, _, _, _ => ⟨.nil, rfl, rfl⟩
+  | .cons name pad d r, b, rest, h => by
+    simp only [WFF] at h
+    obtain ⟨db, rb, rfl, hl, hd, hr, _⟩ := h
+    have hz : (zeros pad).length = pad := zeros_length pad
+    have e1 : ((zeros pad ++ db ++ rb ++ rest).drop pad).take d.size = db := by
+      rw [List.append_assoc, List.append_assoc, List.drop_left' hz, List.take_left' hl]
+    have e2 : (zeros pad ++ db ++ rb ++ rest).drop (pad + d.size) = rb ++ rest := by
+      rw [List.append_assoc]
+      exact List.drop_left' (by simp [hz, hl])
+    obtain ⟨j, he, hok⟩ := toJ_ok ftok hf d db hd
+    obtain ⟨js, hes, hoks⟩ := toJO_ok ftok hf r rb rest hr
+    exact ⟨.cons (keyOf name) j js, by simp only [toDictFields, e1, e2, toJO, he, hes],
+      by simp [JO.okB, keyOf_valid, hok, hoks]⟩
+end
+
+/-- **message level**: for every class and every well-formed content, the JSON text `to_json` writes (either layout)
+is read back by `json.loads` as exactly the document the encoder was given -/
+theorem message_json_text_roundtrip (ftok : Nat → List Char) (hf : ∀ x, floatTokOk (ftok x) = true)
+    (d : Desc) (b : Bytes) (h : WFD d b) :
+    ∃ j, toJ ftok (toDict d b) = some j ∧ parse (renderMin j) = some j ∧ parse (renderPretty j) = some j := by
+  obtain ⟨j, he, hok⟩ := toJ_ok ftok hf d b h
+  exact ⟨j, he, json_text_roundtrip_min j hok, json_text_roundtrip_pretty j hok⟩
+
 /-! ### non-vacuity -/
 /-- "hello" then "hi" in a `char[8]`: the patched store leaves `hi` + six NULs, which round-trips -/
 example : setField true (.str 8) [104, 101, 108, 108, 111, 0, 0, 0] .whole (.sc (.str [104, 105])) = ([104, 105, 0, 0, 0, 0, 0, 0], none) := by decide
@@ -585,5 +713,40 @@ example : wfElemB (.flt .f32) [1, 0, 128, 127] = false := by decide +kernel
 /-- the zero-length `IntArray` is outside `leafOk`, and indeed does not round-trip (Python's `max()` of an empty list) -/
 example : fromDictLeaf (.arr .intArray (.int .i8) 0) (toDictLeaf (.arr .intArray (.int .i8) 0) []) = ([], some .valueError) := by
   decide
+
+/-! #### JSON text -/
+def exJ : J := .obj (.cons [97] (.arr (.cons (.int (-5)) (.cons (.flt ['1', '.', '5']) (.cons (.flt ['N', 'a', 'N']) .nil))))
+  (.cons [98] (.str [34, 10, 127, 233, 128512]) (.cons [99] (.arr .nil) .nil)))
+example : exJ.okB = true := by decide +kernel
+example : renderMin exJ = "{\"a\":[-5,1.5,NaN],\"b\":\"\\\"\\n\\u007f\\u00e9\\ud83d\\ude00\",\"c\":[]}".toList := by
+  decide +kernel
+example : renderPretty exJ =
+    "{\n  \"a\": [\n    -5,\n    1.5,\n    NaN\n  ],\n  \"b\": \"\\\"\\n\\u007f\\u00e9\\ud83d\\ude00\",\n  \"c\": []\n}".toList := by
+  decide +kernel
+example : parse (renderMin exJ) = some exJ := by decide +kernel
+example : parse (renderPretty exJ) = some exJ := by decide +kernel
+/-- the parser is not a rubber stamp: trailing comma, trailing garbage, a control character, a bad escape are refused;
+a surrogate pair is joined -/
+example : parse "[1,]".toList = none ∧ parse "1 2".toList = none ∧ parse "\"\t\"".toList = none ∧
+    parse "\"\\x\"".toList = none ∧ parse "01".toList = none := by decide +kernel
+example : parse "\"\\ud83d\\ude00\"".toList = some (.str [128512]) := by decide +kernel
+example : floatTokOk "1e+22".toList = true ∧ floatTokOk "-0.0".toList = true ∧ floatTokOk "12".toList = false ∧
+    floatTokOk "1.".toList = false ∧ floatTokOk "-Infinity".toList = true := by decide +kernel
+/-- the message of `exDesc`, as JSON text (no floats in it, so any formatter will do) -/
+example : (toJ (fun _ => []) (toDict exDesc exBytes)).map renderMin =
+    some "{\"a\":513,\"s\":[{\"x\":5,\"t\":\"h\"},{\"x\":6,\"t\":\"hi\"}]}".toList := by decide +kernel
+
+/-! #### the open finding C10-F3 (`TimeCodeMessageHeader`)
+`_to_dict` / `_from_dict` walk `obj._fields_`, and ctypes puts only the two fields the subclass adds into it: the
+descriptor of that walk is "48 bytes the walk does not see, then two `uint32`".  A header with an inherited field set
+(here `msg_type = 5`) is outside `WFD` and does not come back. -/
+def tcHeaderWalk : Desc :=
+  .strct (.cons "utc_seconds" 48 (.leaf (.int .u32)) (.cons "utc_fraction" 0 (.leaf (.int .u32)) .nil)) 0
+def tcHeaderBytes : Bytes := [5, 0, 0, 0] ++ List.replicate 44 0 ++ [1, 0, 0, 0, 2, 0, 0, 0]
+example : tcHeaderWalk.size = 56 ∧ tcHeaderBytes.length = 56 := by decide
+example : wfB tcHeaderWalk tcHeaderBytes = false := by decide
+example : toDict tcHeaderWalk tcHeaderBytes =
+    .dict (.cons "utc_seconds" (.leaf (.sc (.int 1))) (.cons "utc_fraction" (.leaf (.sc (.int 2))) .nil)) := by decide
+example : fromDict tcHeaderWalk (toDict tcHeaderWalk tcHeaderBytes) ≠ (tcHeaderBytes, none) := by decide
 
 end Pyrtma.C10
